@@ -121,6 +121,7 @@ func (c *Chain) CheckTx(i int, tx []byte, recheck bool) (*abci.ResponseCheckTx, 
 type StepOpts struct {
 	Dt       time.Duration
 	Absent   map[string]bool // string(consAddr) -> did not sign the previous block
+	NilVote  map[string]bool // string(consAddr) -> took part in the previous round but voted nil (present, not absent)
 	Evidence []abci.Misbehavior
 	Reqs     *Requests
 	Prop     int // 1-based index of the proposing validator (must run a node); 0 = default
@@ -150,7 +151,7 @@ func blockHash(h int64, t time.Time, txs [][]byte) []byte {
 }
 
 // LastCommitInfo builds the commit info for the next block from LastVals.
-func (c *Chain) LastCommitInfo(absent map[string]bool) abci.CommitInfo {
+func (c *Chain) LastCommitInfo(absent map[string]bool, nilVote ...map[string]bool) abci.CommitInfo {
 	var ci abci.CommitInfo
 	if c.LastVals == nil {
 		return ci
@@ -159,6 +160,8 @@ func (c *Chain) LastCommitInfo(absent map[string]bool) abci.CommitInfo {
 		flag := cmtproto.BlockIDFlagCommit
 		if absent[string(v.Address)] {
 			flag = cmtproto.BlockIDFlagAbsent
+		} else if len(nilVote) > 0 && nilVote[0][string(v.Address)] {
+			flag = cmtproto.BlockIDFlagNil
 		}
 		ci.Votes = append(ci.Votes, abci.VoteInfo{Validator: abci.Validator{Address: v.Address, Power: v.VotingPower}, BlockIdFlag: flag})
 	}
@@ -242,7 +245,7 @@ func (c *Chain) Step(o StepOpts) (*Block, error) {
 		}
 	}
 	prop := c.ProposerIndex(o.Prop - 1)
-	lc := c.LastCommitInfo(o.Absent)
+	lc := c.LastCommitInfo(o.Absent, o.NilVote)
 
 	txs, err := c.Prepare(prop, h, t, o.Reqs)
 	if err != nil {
